@@ -209,6 +209,7 @@ type history struct {
 	all    []aggsync.Block // every block ever generated (incl. dropped) – for argument pools
 	gerIdx uint32
 	dups   []*bridgesync.Bridge
+	dupPct int // bridge: percentage of bridges that repeat the content (= leaf hash) of a recent one (default 20)
 }
 
 func newHistory(kind string, g *rand.Rand) *history {
@@ -220,6 +221,13 @@ func newHistory(kind string, g *rand.Rand) *history {
 		h.l1 = world.NewL1Gen(g, world.L1Opts{StartBlock: uint64(1 + g.Intn(5)), MaxEventsBlock: 4, EmptyBlockPct: 20, GapPct: 25, Salt: h.salt, V2: true, Init: g.Intn(2) == 0})
 	}
 	return h
+}
+
+func (h *history) dupPctOr(d int) int {
+	if h.dupPct > 0 {
+		return h.dupPct
+	}
+	return d
 }
 
 func (h *history) lastNum() uint64 {
@@ -236,7 +244,7 @@ func (h *history) extend(n int) []aggsync.Block {
 	case "bridge":
 		dc := uint32(len(world.BridgesOf(h.blocks)))
 		out = world.GenBridgeHistory(h.g, world.BridgeOpts{StartBlock: h.lastNum() + 1 + uint64(h.g.Intn(2)), StartDeposit: dc, Blocks: n,
-			MaxEventsBlock: 4, EmptyBlockPct: 15, GapPct: 25, Claims: true, Tokens: true, Salt: h.salt, LegacyPool: h.legacy, DupPct: 20, DupPool: &h.dups})
+			MaxEventsBlock: 4, EmptyBlockPct: 15, GapPct: 25, Claims: true, Tokens: true, Salt: h.salt, LegacyPool: h.legacy, DupPct: h.dupPctOr(20), DupPool: &h.dups})
 	case "l1info":
 		for i := 0; i < n; i++ {
 			out = append(out, h.l1.Next())
